@@ -54,6 +54,10 @@ pub fn c09_run(args: &Args) -> i32 {
             return 2;
         }
     };
+    if let Some(m) = merged.infos.get("machinery") {
+        eprintln!("MACHINERY: {m}");
+        return 2;
+    }
     // E2: the real executable, real clock, real threads
     let npos = if thorough { 12 } else { 4 };
     let stride = if thorough { 1 } else { 17 };
